@@ -16,14 +16,16 @@ BOUNDS = {
     'entity_p1_view / entity_p1_edit': 'rule 1: permission fixed (view / edit), entities {A | B | A,B}, group matched or not, excluded entity '
         '{none, A, B, A2}; rule 2: permission {view, edit}, same selectors, plus a role, a label and an excluded attribute that an '
         'entity answer must ignore; targets A, A2, B x can_view/edit/create/delete. 1152 paths each '
-        '(thorough: entities + {A2 | A2,B}, permissions of rule 2 {view, edit, create, delete}: 6400 paths)',
+        '(thorough: entities + {A2 | A2,B}, permission text of rule 2 from all six: 9600 paths)',
     'attr_<mode>_e1_<A|B|AB>': 'mode exact/deny/grant x entities of rule 1 fixed; both rules: group matched or not, excluded entity '
         '{none, A, B}, excluded attribute {none, A.b, B.a_set}; rule 2 entities {A | B | A,B}; both rules grant view; targets: all 8 '
         'attributes (pk, plain, hidden, discriminator, subclass attribute, both relationship sides) x can_view, can_edit. 972 paths each '
         '(thorough: excluded attribute + {A.x, A2.y}, rule 2 permission {view, edit}: 5400 paths)',
+    'attr_rule_order': 'both rules cover A (entities {A | A,B} each), matched or not, excluded attribute {none, A.b, B.a_set}, rule 1 excluded entity '
+        '{none, A, B}: 432 paths; asserted only: the answers do not depend on the iteration order of the rule set nor on the repetition (reading-independent)',
     'object_conditions': 'rules on (A,B) and (A): group / role / label requirement of both rules, user in group, role and label '
         'present (distributed differently over a, a2, b): 9 booleans, 512 paths',
-    'object_exclusions(_rest)': 'both rules: entities {A | B | A,B}, matched or not, excluded entity {none, A, B, A2}: 576 paths; '
+    'object_exclusions(_rest)': 'both rules: entities {A | B | A,B}, matched or not, excluded entity {none, A, B, A2}: 576 paths (thorough: + {A2 | A2,B}: 1600); '
         '_rest leaves out objects whose entity some rule excludes',
     'object_userkinds': 'user None / plain object / the object a / the object b; rule role {none, self, r, r+self}; user has r; rule '
         'group g1 or none; g1 returned by the any-user getter / by the getter registered for class User: 256 paths; objects and entities',
